@@ -238,7 +238,7 @@ GapSets(fs) == IF Level = 1 THEN {{}} \cup {{g} : g \in 0..Len(fs)} ELSE SUBSET 
 Frags(d) == UNION {{Interleave(fs, G, 0) : G \in GapSets(fs)} : fs \in Comps(d)}
 
 (* --------------------------------------------------- the machine --------------------------------------------------- *)
-NoLast == [perr |-> "", ierr |-> "", ierr1 |-> "", pres |-> <<>>, ires |-> <<>>, ires1 |-> <<>>]
+NoLast == [ref |-> TRUE, frag |-> TRUE]       \* booleans only: the outcome itself would multiply the states
 
 Init ==
     /\ n = 0 /\ last = NoLast /\ hist = <<>>
@@ -264,7 +264,7 @@ SerStep(c) ==
     /\ LET p == SApply(ps, c)
            i == ISerApply(is, c)
        IN /\ ps' = p.st /\ is' = i.st /\ is1' = is1
-          /\ last' = [NoLast EXCEPT !.perr = p.err, !.ierr = i.err, !.ierr1 = i.err]
+          /\ last' = [ref |-> p.err = i.err, frag |-> TRUE]
           /\ hist' = IF Emit THEN Append(hist, SerExpect(ps, c, p)) ELSE hist
 DesStep(c) ==
     /\ DDefined(ps, c)
@@ -272,7 +272,7 @@ DesStep(c) ==
            i == IDesApply(is, c)
            j == IDesApply(is1, c)
        IN /\ ps' = p.st /\ is' = i.st /\ is1' = j.st
-          /\ last' = [perr |-> p.err, ierr |-> i.err, ierr1 |-> j.err, pres |-> p.res, ires |-> i.res, ires1 |-> j.res]
+          /\ last' = [ref |-> p.err = i.err /\ p.res = i.res, frag |-> i.err = j.err /\ i.res = j.res]
           /\ hist' = IF Emit THEN Append(hist, DesExpect(ps, c, p)) ELSE hist
 
 Next ==
@@ -285,7 +285,7 @@ Spec == Init /\ [][Next]_vars
 MemBits == BitsOfBytes(is.mem)
 RefinesSer ==
     Kind = "ser" =>
-        /\ last.perr = last.ierr
+        /\ last.ref
         /\ ~is.oob                                                                   \* no index beyond the buffer of the object
         /\ Len(ps.objs) = Len(is.objs)
         /\ \A o \in 1..Len(ps.objs) : /\ ps.objs[o].cur = is.objs[o].bit
@@ -294,14 +294,13 @@ RefinesSer ==
         /\ \A i \in 1..Len(ps.store) : ps.store[i] = X \/ ps.store[i] = MemBits[i]      \* every bit, addressed or not
 RefinesDes ==
     Kind = "des" =>
-        /\ last.perr = last.ierr
-        /\ last.pres = last.ires
+        /\ last.ref
         /\ Len(ps.objs) = Len(is.objs)
         /\ \A o \in 1..Len(ps.objs) : /\ ps.objs[o].cur = is.objs[o].bit
                                       /\ Len(ps.objs[o].data) = 8 * Total(is.objs[o].frags)
 FragIndep ==
     Kind = "des" =>
-        /\ last.ierr = last.ierr1 /\ last.ires = last.ires1
+        /\ last.frag
         /\ Len(is.objs) = Len(is1.objs)
         /\ \A o \in 1..Len(is.objs) : is.objs[o].bit = is1.objs[o].bit /\ Total(is.objs[o].frags) = Total(is1.objs[o].frags)
 (* on a store that nobody dirtied beyond a cursor the contract leaves nothing open *)
